@@ -423,6 +423,9 @@ class Interp:
 
     def stmt_AugAssign(self, s, fr):
         cur = self.eval(_load(s.target), fr)
+        h = self.spec_funcs.get('augassign_hook')
+        if h is not None:
+            h(self, s, cur, fr)          # x += y mutates x in place when x is a mutable object (e.g. a pandas object)
         v = self.binop(s.op, cur, self.eval(s.value, fr))
         self.assign(s.target, v, fr)
 
@@ -555,6 +558,8 @@ class Interp:
             # only concrete iteration is allowed without an invariant
             items = self.concrete_items(it)
             if items is None:
+                if self.loop_as_comprehension(s, fr):
+                    return
                 raise Unsupported('loop %s#%d over a symbolic sequence needs an invariant' % (fr.qual, ordinal))
             try:
                 for v in items:
@@ -624,6 +629,39 @@ class Interp:
                 self.iter_check(tok)
         except BreakSignal:
             return
+
+    def loop_as_comprehension(self, s, fr):
+        """`for e in seq: [if c(e):] acc.append(f(e))`  with a list local `acc` is  acc.extend([f(e) for e in seq if c(e)]);
+        the comprehension is then handled by the comprehension rules (no invariant needed).  Returns False if the loop does not
+        have exactly this shape."""
+        if s.orelse or len(s.body) != 1 or not isinstance(s.target, ast.Name):
+            return False
+        st = s.body[0]
+        ifs = []
+        if isinstance(st, ast.If) and not st.orelse and len(st.body) == 1:
+            ifs = [st.test]
+            st = st.body[0]
+        if not (isinstance(st, ast.Expr) and isinstance(st.value, ast.Call) and isinstance(st.value.func, ast.Attribute)
+                and st.value.func.attr == 'append' and isinstance(st.value.func.value, ast.Name)
+                and len(st.value.args) == 1 and not st.value.keywords):
+            return False
+        acc = st.value.func.value.id
+        for n in ast.walk(st.value.args[0]):
+            if isinstance(n, ast.Name) and n.id == acc:
+                return False
+        for t in ifs:
+            for n in ast.walk(t):
+                if isinstance(n, ast.Name) and n.id == acc:
+                    return False
+        accv = fr.locals.get(acc)
+        if not isinstance(accv, VList):
+            return False
+        comp = ast.ListComp(elt=st.value.args[0], generators=[ast.comprehension(target=s.target, iter=s.iter, ifs=ifs, is_async=0)])
+        ast.copy_location(comp, s)
+        ast.fix_missing_locations(comp)
+        v = self.comprehension(comp, fr)
+        self.list_method(accv, 'extend', [v], {})
+        return True
 
     def iter_token(self, it):
         """loops are modelled as iteration over a snapshot of the sequence; that is only Python's meaning if the object being
@@ -963,6 +1001,11 @@ class Interp:
                 qual, node = m
                 if self.index.is_property(node):
                     return self.call_function(VFunc(qual, node, bound=obj), [], {}, fr)
+                decos = [d.id for d in node.decorator_list if isinstance(d, ast.Name)]
+                if 'staticmethod' in decos:
+                    return VFunc(qual, node, bound=None)
+                if 'classmethod' in decos:
+                    return VFunc(qual, node, bound=VClass(cell.cls))
                 return VFunc(qual, node, bound=obj)
             cv = self.index.class_attr(cell.cls, name)
             if cv is not None:
@@ -1510,6 +1553,15 @@ class Interp:
         h = self.spec_funcs.get('call_default')
         if h is not None:
             return h(self, 'function', qual, f.bound, args, kwargs)
+        if f.node is not None and not _is_coroutine_def(f.node) and getattr(self, '_inline_depth', 0) < 4:
+            # a helper of the repository that has no contract of its own (e.g. freshly extracted by a refactoring): its body is
+            # part of the caller's verified text (exact, no abstraction); reported under `dropped`/inlined in the evidence
+            self.dropped.add('inlined helper without a contract of its own: ' + qual)
+            self._inline_depth = getattr(self, '_inline_depth', 0) + 1
+            try:
+                return self.run_function(f, args, kwargs)
+            finally:
+                self._inline_depth -= 1
         raise Unsupported('call of %s without a contract (and not marked inline)' % qual)
 
     def bind_args(self, node, bound, args, kwargs, qual):
@@ -1797,8 +1849,14 @@ class Interp:
         raise Unsupported('set method %s' % name)
 
     # ------------------------------------------------------------ specification expressions
-    def eval_spec(self, text, fr, old_st=None, old_frame=None):
+    def eval_spec(self, text, fr, old_st=None, old_frame=None, loop_text=False):
         tree = ast.parse(text.strip(), mode='eval').body
+        lm = self.index.local_map(fr.qual)
+        if lm:
+            # the contract names locals as in the baseline source; the source under test may have renamed them.
+            # `result` in a clause is the return value, not a local (in loop invariants it is the local)
+            from .localmap import rename_spec
+            tree = rename_spec(tree, lm, keep=() if loop_text else ('result',))
         saved = (self.old_st, getattr(self, 'old_frame', None))
         self.old_st = old_st
         self.old_frame = old_frame
@@ -1809,8 +1867,8 @@ class Interp:
             self.spec_mode -= 1
             self.old_st, self.old_frame = saved
 
-    def spec_bool(self, text, fr, old_st=None, old_frame=None):
-        return self.truth(self.eval_spec(text, fr, old_st, old_frame))
+    def spec_bool(self, text, fr, old_st=None, old_frame=None, loop_text=False):
+        return self.truth(self.eval_spec(text, fr, old_st, old_frame, loop_text=loop_text))
 
 
 def _load(t):
@@ -2076,6 +2134,31 @@ def _b_deque(I, args, kwargs, fr):
     return I.st.new_list(None, None, 'deque', ml)
 
 
+def _is_coroutine_def(node):
+    if isinstance(node, ast.AsyncFunctionDef):
+        return True
+    for n in ast.walk(node):
+        if isinstance(n, (ast.Yield, ast.YieldFrom, ast.Await)):
+            return True
+    return False
+
+
+def _b_set(I, args, kwargs, fr):
+    """set(seq): membership is `contains`; the cardinality is not tracked (None) unless the sequence is empty"""
+    if not args:
+        raise Unsupported('set() without an element type')
+    v = args[0]
+    if isinstance(v, VSet):
+        c = I.st.heap[v.loc]
+        return I.st.new_set(SetCell(c.member, c.kkind, c.card))
+    t, k = I.seq_term(v)
+    if t is None:
+        raise Unsupported('set() of an untyped empty sequence')
+    key = z3.Const(sym.fresh_name('setk'), k.sort)
+    member = z3.Lambda([key], z3.Contains(t, z3.Unit(key)))
+    return I.st.new_set(SetCell(member, k, None))
+
+
 def _b_getattr(I, args, kwargs, fr):
     obj, name = args[0], args[1]
     try:
@@ -2092,7 +2175,7 @@ BUILTINS = {
     'any': _b_any, 'range': _b_range, 'float': _b_float, 'int': _b_int, 'bool': _b_bool,
     'deque': _b_deque, 'getattr': _b_getattr, 'reversed': _b_reversed,
     'next': _b_not_impl('next'), 'chain': _b_not_impl('chain'), 'sorted': _b_not_impl('sorted'),
-    'set': _b_not_impl('set'), 'dict': _b_not_impl('dict'), 'enumerate': _b_not_impl('enumerate'),
+    'set': _b_set, 'dict': _b_not_impl('dict'), 'enumerate': _b_not_impl('enumerate'),
     'time': _b_not_impl('time'), 'zip': _b_not_impl('zip'), 'sum': _b_not_impl('sum'),
     'str': _b_not_impl('str'), 'iter': _b_iter, 'id': _b_not_impl('id'),
     'hasattr': _b_not_impl('hasattr'), 'super': None, '__builtins__': None,
